@@ -38,22 +38,22 @@ def resample(infile, outfile, derfile, xs, typ):
             os.remove(f)
     g = "%s:%s:%s" % (xs[0], repr(float(xs[1]) - float(xs[0])), xs[-1])
     for attempt in range(8):
-        p = subprocess.run([exe, "--in", infile, "--out", outfile, "--derivative", derfile, "--grid", g, "--type", typ],
-                           stdout=subprocess.PIPE, stderr=subprocess.STDOUT, timeout=120)
-        log = p.stdout.decode(errors="replace")[-300:]
-        if p.returncode in (126, 127) and "shared libraries" in log:
+        rc, so, se = T.spawn_patient([exe, "--in", infile, "--out", outfile, "--derivative", derfile, "--grid", g, "--type", typ],
+                                     None, 120, subprocess.STDOUT)
+        log = so.decode(errors="replace")[-300:]
+        if rc in (126, 127) and "shared libraries" in log:
             time.sleep(3)        # the dynamic loader met a library that is being re-linked by a concurrent build: not a result
             continue
         break
-    return p.returncode, log
+    return rc, log
 
 
 def integrate(infile, outfile, frm):
     if os.path.exists(outfile):
         os.remove(outfile)
-    p = subprocess.run([T.PERL, os.path.join(T.SDIR, T.FILES["integrate"]), "--from", frm, infile, outfile],
-                       env=T.perl_env(), stdout=subprocess.PIPE, stderr=subprocess.PIPE, timeout=120)
-    return p.returncode, p.stderr.decode(errors="replace")[-300:]
+    rc, so, se = T.spawn_patient([T.PERL, os.path.join(T.SDIR, T.FILES["integrate"]), "--from", frm, infile, outfile],
+                                 T.perl_env(), 120)
+    return rc, se.decode(errors="replace")[-300:]
 
 
 def table_rows(path, n, xs, flags, fails, who):
@@ -91,12 +91,16 @@ def run_case(case, verbose=False):
     tol = PTOL * (1.0 + max(abs(v) for v in f)) * 4
     if direction == "fwd":
         rc, err = integrate("c_in.tab", "c_F.tab", frm)
+        if rc is None:
+            return [("integrate-hang", "table_integrate.pl did not terminate within 120 s and, re-run alone, within 1200 s")], "hang"
         if rc != 0:
             return [("integrate-script-died", err)], "died"
         Frows = table_rows("c_F.tab", n, xs, flags, fails, "integrate")
         if Frows is None:
             return fails, "died"
         rc, log = resample("c_F.tab", "c_R.tab", "c_D.tab", xs, typ)
+        if rc is None:
+            return [("csg_resample-hang", "csg_resample did not terminate within 120 s and, re-run alone, within 1200 s")], "hang"
         if rc != 0:
             return [("resample-failed", "csg_resample rc=%d: %s" % (rc, log))], "died"
         R = table_rows("c_R.tab", n, xs, flags, fails, "resample")
@@ -133,12 +137,16 @@ def run_case(case, verbose=False):
         sig = ("fwd", typ, frm, flags, "".join("%d" % (T.fl(r[1]) != 0) for r in D))
     else:
         rc, log = resample("c_in.tab", "c_R.tab", "c_D.tab", xs, typ)
+        if rc is None:
+            return [("csg_resample-hang", "csg_resample did not terminate within 120 s and, re-run alone, within 1200 s")], "hang"
         if rc != 0:
             return [("resample-failed", "csg_resample rc=%d: %s" % (rc, log))], "died"
         D = table_rows("c_D.tab", n, xs, flags, fails, "derivative")
         if D is None:
             return fails, "died"
         rc, err = integrate("c_D.tab", "c_G.tab", frm)
+        if rc is None:
+            return [("integrate-hang", "table_integrate.pl did not terminate within 120 s and, re-run alone, within 1200 s")], "hang"
         if rc != 0:
             return [("integrate-script-died", err)], "died"
         G = table_rows("c_G.tab", n, xs, flags, fails, "integrate")
@@ -223,6 +231,8 @@ def main():
             R.fail(key, what, cs)
         if not fails and i % 997 == 500:
             R.sample("%s -> %s" % (cs, sig))
+    for k, v in T.STATS.items():
+        R.count(k, v)
     R.write(a.out)
 
 
